@@ -101,6 +101,10 @@ def w_parse(case):
             if node is not None:
                 ent["file"] = Path(node.meta.filename).name
                 ent["line"] = node.meta.line
+                try:  # which of the files written for this case is meant (modules may share a base name)
+                    ent["rel"] = os.path.relpath(os.path.realpath(node.meta.filename), os.path.realpath(d))
+                except Exception:
+                    pass
             msgs.append(ent)
         try:
             rendered = logger.error(err)
@@ -111,10 +115,11 @@ def w_parse(case):
         cited = []
         for ent in msgs:
             if "file" in ent:
-                src = None
-                for rel, text in case["files"].items():
-                    if os.path.basename(rel) == ent["file"]:
-                        src = text
+                src = case["files"].get(ent.get("rel", ""))
+                if src is None:
+                    for rel, text in case["files"].items():
+                        if os.path.basename(rel) == ent["file"]:
+                            src = text
                 exists = src is not None and 1 <= ent["line"] <= len(src.split("\n"))
                 cited.append([ent["file"], ent["line"], bool(exists)])
         return {"err": msgs, "rendered": rend, "cited": cited}
@@ -174,10 +179,10 @@ def rnd_type(rng, depth, structs, enums):
     return ("opt", rnd_type(rng, depth - 1, structs, enums))
 
 
-def gen_desc(rng, max_decls=8):
+def gen_desc(rng, max_decls=8, used=None):
     d = Desc()
     structs, enums, services = [], [], []
-    used = set()
+    used = set() if used is None else used
 
     def fresh(prefix):
         while True:
@@ -649,7 +654,7 @@ def run_c08(rep, rng, tier):
 # ------------------------------------------------------------------ C20
 
 
-def split_desc(rng, d, depth=0, prefix=""):
+def split_desc(rng, d, depth=0, prefix="", first_dirs=None):
     """move a declare-before-use respecting subset of declarations into module files.
     Returns (root decl list, {relative path: Desc}) — modules must be self-contained."""
     files = {}
@@ -662,6 +667,8 @@ def split_desc(rng, d, depth=0, prefix=""):
     mod_decls = decls[:cut]
     rest = decls[cut:]
     parts = [rng.choice(["mods", "lib", "common"]) for _ in range(rng.randint(0, 2))] + [rng.choice(["types", "base", "defs"]) + str(depth)]
+    if first_dirs:
+        parts = list(first_dirs) + parts
     sub = Desc()
     sub.decls = mod_decls
     inner_decls, inner_files = split_desc(rng, sub, depth + 1, prefix + "/".join(parts[:-1]) + ("/" if parts[:-1] else ""))
@@ -678,8 +685,28 @@ def run_c20(rep, rng, tier):
     jobs = []
     meta = []
     for _ in range(n):
-        d = gen_desc(rng, max_decls=7)
-        root_decls, mods = split_desc(rng, d)
+        if rng.random() < 0.5:
+            d = gen_desc(rng, max_decls=7)
+            root_decls, mods = split_desc(rng, d)
+        else:
+            # independent clusters of declarations, each moved (wholly or a prefix of it) into its own module tree:
+            # sibling imports in one file, module files sharing a base name in different directories
+            used = set()
+            clusters = [gen_desc(rng, max_decls=4, used=used) for _ in range(rng.randint(2, 3))]
+            d = Desc()
+            root_decls, mods = [], {}
+            for ci, c in enumerate(clusters):
+                d.decls += c.decls
+                if rng.random() < 0.85 and len(c.decls) >= 2:
+                    st = rng.getstate()
+                    rd, mf = split_desc(rng, c)
+                    if any(rel in mods for rel in mf):
+                        rng.setstate(st)
+                        rd, mf = split_desc(rng, c, first_dirs=[f"c{ci}"])
+                    root_decls += rd
+                    mods.update(mf)
+                else:
+                    root_decls += c.decls
         files = {}
         rd = Desc()
         rd.decls = root_decls
